@@ -212,16 +212,23 @@ def generation_cert(Vals, B, n):
 
 # ---- rational bases: factorisation data -----------------------------------------------
 def factor_rationals(bases):
-    """bases: list of non-zero Fractions -> (primes, facts) with facts[i] = (neg?, [v_p(b_i)])"""
+    """bases: list of non-zero Fractions -> (primes, facts) with facts[i] = (neg?, [v_p(b_i)]).
+    The primes are listed in the order in which compute_basis_rational meets them (base by base,
+    numerator primes ascending, then denominator primes ascending): the row order of its matrix, which
+    the Coq model of the integer-kernel computation follows.  Any order is fine for the validators."""
     import sympy as sp
-    primes = set()
+    primes = []
     fs = []
     for b in bases:
         fn = sp.factorint(abs(b.numerator))
         fd = sp.factorint(b.denominator)
-        primes |= {int(p) for p in fn} | {int(p) for p in fd}
+        for p in sorted(int(p) for p in fn):
+            if p not in primes:
+                primes.append(p)
+        for p in sorted(int(p) for p in fd):
+            if p not in primes:
+                primes.append(p)
         fs.append((fn, fd))
-    primes = sorted(primes)
     facts = []
     for b, (fn, fd) in zip(bases, fs):
         facts.append((b < 0, [int(fn.get(p, 0)) - int(fd.get(p, 0)) for p in primes]))
